@@ -1,4 +1,4 @@
-import Dbg.Lemmas.MspProofs
+import Dbg.Props.C07
 import Dbg.Lemmas.Final
 import Dbg.Lemmas.Ladder128
 import Dbg.Lemmas.Mask
